@@ -30,7 +30,7 @@ class Check(HCheck):
 
             dirs = [al.A + b"p:d%04d|" % i for i in range(2100)]
             big = al.crawl(*[(d + b"p:x|", (dirs[(i * 7) % 2100] + b"p:y|", dirs[i % 5] + b"p:x|")) for i, d in enumerate(dirs)])
-            sp.insert(0, Space(Cfg("domain"), [big, al.create(dirs[3]), al.links((dirs[0] + b"p:x|", dirs[2099] + b"p:x|"))], 2, name="sizes/2100-directories"))
+            sp.insert(0, Space(Cfg("domain"), [big, al.create(dirs[3]), al.links((dirs[0] + b"p:x|", dirs[2099] + b"p:x|"))], 2, name="sizes/2100-directories", slow=6))
         return sp
 
     def check_state(self, w, ctx):
